@@ -779,13 +779,28 @@ sexp sexp_bignum_sqrt (sexp ctx, sexp a, sexp* rem_out) {
 
 #if SEXP_USE_RATIOS
 
+/* returns a finite f and sets *e such that a = f * 2^e, using the (up */
+/* to) three most significant words of a bignum                        */
+static double sexp_exact_to_double_exp (sexp a, int *e) {
+  double res = 0;
+  sexp_sint_t i, hi, lo;
+  *e = 0;
+  if (sexp_fixnump(a)) return sexp_fixnum_to_double(a);
+  hi = sexp_bignum_hi(a);
+  lo = (hi > 3) ? hi - 3 : 0;
+  for (i=hi-1; i>=lo; i--)
+    res = res * ((double)SEXP_UINT_T_MAX+1) + sexp_bignum_data(a)[i];
+  *e = lo * sizeof(sexp_uint_t) * 8;
+  return res * sexp_bignum_sign(a);
+}
+
 double sexp_ratio_to_double (sexp ctx, sexp rat) {
   sexp_gc_var1(quot);
+  int nume, dene;
   sexp num = sexp_ratio_numerator(rat), den = sexp_ratio_denominator(rat);
-  double res = (sexp_bignump(num) ? sexp_bignum_to_double(num)
-          : sexp_fixnum_to_double(num))
-    / (sexp_bignump(den) ? sexp_bignum_to_double(den)
-       : sexp_fixnum_to_double(den));
+  double res = sexp_exact_to_double_exp(num, &nume)
+    / sexp_exact_to_double_exp(den, &dene);
+  res = ldexp(res, nume - dene);
   if (!isfinite(res)) {
     sexp_gc_preserve1(ctx, quot);
     if (sexp_unbox_fixnum(sexp_compare(ctx, sexp_ratio_numerator(rat),  sexp_ratio_denominator(rat))) < 0) {
